@@ -1224,6 +1224,9 @@ class Evaluator:
                 if method in TRANSPARENT_METHODS and not args:
                     th = getattr(self, "transparent_hook", None)
                     r = th(callee, method, recv, s) if th else None
+                    if r is None and getattr(self, "vecs", False) and method == "to_string" and not (recv[0] == "lit" and isinstance(recv[1], str)):
+                        # folding tables: the text of a value is not the value (text order / length / equality differ); integers print as their digits
+                        r = ("lit", str(recv[1])) if recv[0] == "lit" and isinstance(recv[1], int) and not isinstance(recv[1], bool) else ("unknown", "text of a value")
                     yield s, (r if r is not None else recv)
                     continue
                 if method == "cmp" and len(args) == 1:
